@@ -73,79 +73,7 @@ func c19(r *core.Run) {
 			}
 		}
 	}
-	// the inbox channel can hold a message while SendRequest is not parked in the select: the NATS
-	// client delivers to channel subscriptions with a non-blocking send and drops what does not fit
-	{
-		chArg := subCall.Common().Args[len(subCall.Common().Args)-1]
-		buffered := false
-		desc := valDesc(chArg)
-		for _, lf := range valueLeaves(chArg, nil, 0) {
-			if mk, ok := lf.V.(*ssa.MakeChan); ok {
-				if n, ok := core.ConstInt(mk.Size); ok {
-					buffered = n >= 1
-					desc = fmt.Sprintf("make(chan, %d)", n)
-				}
-			}
-		}
-		r.Check(buffered, "U1", fname, "inbox-channel-is-buffered", p.InstrPos(subCall), "the inbox channel has capacity >= 1", "the inbox channel is "+desc+": a response that arrives while SendRequest is handling a pre-response (or running an extension callback) is dropped by the client's non-blocking send, and SendRequest reports a timeout although a response arrived in time")
-	}
-	// the interest must last until SendRequest returns: nothing but the release touches the subscription
-	{
-		var subV ssa.Value
-		if subCall.Value() != nil && subCall.Value().Referrers() != nil {
-			for _, rf := range *subCall.Value().Referrers() {
-				if ex, ok := rf.(*ssa.Extract); ok && ex.Index == 0 {
-					subV = ex
-				}
-			}
-		}
-		var other []string
-		var walk func(v ssa.Value, depth int)
-		walk = func(v ssa.Value, depth int) {
-			if v == nil || v.Referrers() == nil || depth > 4 {
-				return
-			}
-			for _, rf := range *v.Referrers() {
-				switch x := rf.(type) {
-				case *ssa.DebugRef:
-				case *ssa.BinOp: // nil comparison
-				case *ssa.Store:
-					if al, ok := x.Addr.(*ssa.Alloc); ok && x.Val == v && al.Referrers() != nil {
-						for _, r2 := range *al.Referrers() {
-							if u, ok := r2.(*ssa.UnOp); ok {
-								walk(u, depth+1)
-							}
-							if mc, ok := r2.(*ssa.MakeClosure); ok {
-								if f, ok := mc.Fn.(*ssa.Function); ok {
-									for i, b := range mc.Bindings {
-										if b == ssa.Value(al) && i < len(f.FreeVars) && f.FreeVars[i].Referrers() != nil {
-											for _, r3 := range *f.FreeVars[i].Referrers() {
-												if u, ok := r3.(*ssa.UnOp); ok {
-													walk(u, depth+1)
-												}
-											}
-										}
-									}
-								}
-							}
-						}
-					} else {
-						other = append(other, "stored at "+p.InstrPos(x))
-					}
-				case ssa.CallInstruction:
-					cal := x.Common().StaticCallee()
-					if cal != nil && len(x.Common().Args) > 0 && x.Common().Args[0] == v && cal.Name() == "Unsubscribe" {
-						continue
-					}
-					other = append(other, core.CalleeName(x)+" at "+p.InstrPos(x))
-				default:
-					other = append(other, fmt.Sprintf("%T at %s", rf, p.InstrPos(rf)))
-				}
-			}
-		}
-		walk(subV, 0)
-		r.Check(subV != nil && len(other) == 0, "U1", fname, "subscription-used-only-by-the-release", p.InstrPos(subCall), "nothing but the (deferred) Unsubscribe touches the inbox subscription: it stays active across pre-responses until SendRequest returns", "the inbox subscription is also used by "+strings.Join(other, ", ")+": ending or limiting the interest early (AutoUnsubscribe, Drain, an early Unsubscribe) drops the real response that follows a pre-response")
-	}
+	c19InboxOpen(r, "U1", fn, subCall)
 	if def == nil {
 		r.Bad("U1", fname, "defer-Unsubscribe", p.Pos(fn.Pos()), "the inbox subscription is never released by a deferred Unsubscribe")
 	} else {
@@ -675,4 +603,85 @@ func structErrorIs(v ssa.Value, rs *core.Resolver, pred func(ssa.Value, *core.Re
 		}
 	}
 	return found
+}
+
+// c19InboxOpen: the inbox can hold a message while SendRequest is busy and the
+// interest lasts until SendRequest returns (C19.U1; shared with C18.V5: a
+// response the service published must reach the client's parser).
+func c19InboxOpen(r *core.Run, rule string, fn *ssa.Function, subCall ssa.CallInstruction) {
+	p := r.P
+	fname := core.FuncName(fn)
+	// the inbox channel can hold a message while SendRequest is not parked in the select: the NATS
+	// client delivers to channel subscriptions with a non-blocking send and drops what does not fit
+	{
+		chArg := subCall.Common().Args[len(subCall.Common().Args)-1]
+		buffered := false
+		desc := valDesc(chArg)
+		for _, lf := range valueLeaves(chArg, nil, 0) {
+			if mk, ok := lf.V.(*ssa.MakeChan); ok {
+				if n, ok := core.ConstInt(mk.Size); ok {
+					buffered = n >= 1
+					desc = fmt.Sprintf("make(chan, %d)", n)
+				}
+			}
+		}
+		r.Check(buffered, rule, fname, "inbox-channel-is-buffered", p.InstrPos(subCall), "the inbox channel has capacity >= 1", "the inbox channel is "+desc+": a response that arrives while SendRequest is handling a pre-response (or running an extension callback) is dropped by the client's non-blocking send, and SendRequest reports a timeout although a response arrived in time")
+	}
+	// the interest must last until SendRequest returns: nothing but the release touches the subscription
+	{
+		var subV ssa.Value
+		if subCall.Value() != nil && subCall.Value().Referrers() != nil {
+			for _, rf := range *subCall.Value().Referrers() {
+				if ex, ok := rf.(*ssa.Extract); ok && ex.Index == 0 {
+					subV = ex
+				}
+			}
+		}
+		var other []string
+		var walk func(v ssa.Value, depth int)
+		walk = func(v ssa.Value, depth int) {
+			if v == nil || v.Referrers() == nil || depth > 4 {
+				return
+			}
+			for _, rf := range *v.Referrers() {
+				switch x := rf.(type) {
+				case *ssa.DebugRef:
+				case *ssa.BinOp: // nil comparison
+				case *ssa.Store:
+					if al, ok := x.Addr.(*ssa.Alloc); ok && x.Val == v && al.Referrers() != nil {
+						for _, r2 := range *al.Referrers() {
+							if u, ok := r2.(*ssa.UnOp); ok {
+								walk(u, depth+1)
+							}
+							if mc, ok := r2.(*ssa.MakeClosure); ok {
+								if f, ok := mc.Fn.(*ssa.Function); ok {
+									for i, b := range mc.Bindings {
+										if b == ssa.Value(al) && i < len(f.FreeVars) && f.FreeVars[i].Referrers() != nil {
+											for _, r3 := range *f.FreeVars[i].Referrers() {
+												if u, ok := r3.(*ssa.UnOp); ok {
+													walk(u, depth+1)
+												}
+											}
+										}
+									}
+								}
+							}
+						}
+					} else {
+						other = append(other, "stored at "+p.InstrPos(x))
+					}
+				case ssa.CallInstruction:
+					cal := x.Common().StaticCallee()
+					if cal != nil && len(x.Common().Args) > 0 && x.Common().Args[0] == v && cal.Name() == "Unsubscribe" {
+						continue
+					}
+					other = append(other, core.CalleeName(x)+" at "+p.InstrPos(x))
+				default:
+					other = append(other, fmt.Sprintf("%T at %s", rf, p.InstrPos(rf)))
+				}
+			}
+		}
+		walk(subV, 0)
+		r.Check(subV != nil && len(other) == 0, rule, fname, "subscription-used-only-by-the-release", p.InstrPos(subCall), "nothing but the (deferred) Unsubscribe touches the inbox subscription: it stays active across pre-responses until SendRequest returns", "the inbox subscription is also used by "+strings.Join(other, ", ")+": ending or limiting the interest early (AutoUnsubscribe, Drain, an early Unsubscribe) drops the real response that follows a pre-response")
+	}
 }
